@@ -1,13 +1,224 @@
 import ChythonModel.Model.C06Rings
 import ChythonModel.Spec.CycleBasis
+import ChythonModel.Proofs.C06Gauss
+import ChythonModel.Proofs.C06Skin
+import ChythonModel.Proofs.C06Components
+import ChythonModel.Proofs.C06Canonic
+import ChythonModel.Proofs.C06Marks
+import ChythonModel.Proofs.C06Count
 /-!
 # C06 — ring perception returns a minimum cycle basis that ring marks agree with
+
+Every theorem is about the definitions the driver `Drivers/C06.lean` runs (`Model/C06Rings.lean`,
+`Spec/CycleBasis.lean`). Proof bodies live in `Proofs/C06*.lean`; this file states the obligations.
+
+Functional models, proved for all inputs: `_connected_components` (`components_partition`), `_skin_graph`
+(`skin_terminates`, `skin_is_two_core`), `rings_count` (`rings_count_cyclomatic`), `_canonic_ring`
+(`canonic_ring_spec`, `canonic_ring_invariant`), `atoms_rings`/`atoms_rings_sizes`/ring marks (`marks_agree`).
+Relational clause: `check_sssr_sound` (with `gauss_rank_sound`) — whatever ring list the checker accepts is a set
+of simple cycles of existing non-coordinate bonds, GF(2)-independent, with |E|−|V|+c members.
+
+**Minimality** ("minimum total size", "size multiset independent of numbering") has no ∀-theorem here: the
+ring list of the implementation is compared per run with `minBasis` (Horton candidates + greedy), whose output is
+certified by the same checker (`min_basis_is_cycle_basis`) — so a *smaller* total size than the implementation's
+is always witnessed by a genuine cycle basis — but that `minBasis` is itself minimum is validated, not proved.
 -/
 namespace ChythonModel.Props.C06
-open ChythonModel.Model.C06 ChythonModel.Spec.CycleBasis
+open ChythonModel.Model.C06 ChythonModel.Spec.CycleBasis ChythonModel.Proofs.C06
 
 /-- the executable simple-cycle test decides the declarative clause -/
 theorem isCycleOf_iff (g : Adj) (r : List Nat) : isCycleOf g r = true ↔ IsSimpleCycle g r := by
   simp [isCycleOf, IsSimpleCycle, and_assoc]
+
+/-- Gaussian elimination over GF(2) is sound: if it succeeds, no non-trivial combination of the vectors is zero -/
+theorem gauss_rank_sound (vs : List Nat) (h : indepCheck vs = true) : Independent vs :=
+  indepCheck_sound h
+
+/-- **checker soundness**: a ring list accepted by `checkSssr` consists of simple cycles of existing bonds of `g`
+(for `g = notSpecial m`: non-coordinate bonds), its edge-incidence vectors are linearly independent over GF(2),
+and it has exactly `|E| − |V| + c` members. -/
+theorem check_sssr_sound (g : Adj) (rings : List (List Nat)) (h : checkSssr g rings = true) :
+    (∀ r ∈ rings, IsSimpleCycle g r) ∧
+    Independent (rings.map (ringVec (edgeList g))) ∧
+    cyclomatic g = some (rings.length : Int) := by
+  simp only [checkSssr, Bool.and_eq_true, List.all_eq_true, beq_iff_eq] at h
+  obtain ⟨⟨h1, h2⟩, h3⟩ := h
+  exact ⟨fun r hr => (isCycleOf_iff g r).1 (h1 r hr), indepCheck_sound h3, h2⟩
+
+/-- the verdict the driver reports is `ok` exactly when the Boolean checker accepts -/
+theorem verdict_ok_iff (g : Adj) (rings : List (List Nat)) : checkSssrV g rings = .ok ↔ checkSssr g rings = true := by
+  unfold checkSssrV checkSssr
+  cases hf : (List.range rings.length).find? fun i => !isCycleOf g (rings.getD i []) with
+  | some i =>
+    have hi := List.find?_some hf
+    have hm := List.mem_of_find?_eq_some hf
+    simp only [List.mem_range] at hm
+    simp only [Bool.not_eq_eq_eq_not, Bool.not_true] at hi
+    have : rings.all (isCycleOf g) = false := by
+      rw [List.all_eq_false]
+      refine ⟨rings[i], List.getElem_mem hm, ?_⟩
+      simpa [List.getD_eq_getElem?_getD, List.getElem?_eq_getElem hm] using hi
+    simp [this]
+  | none =>
+    have hall : rings.all (isCycleOf g) = true := by
+      rw [List.all_eq_true]
+      intro r hr
+      obtain ⟨i, hi, rfl⟩ := List.getElem_of_mem hr
+      have := List.find?_eq_none.1 hf i (List.mem_range.2 hi)
+      simpa [List.getD_eq_getElem?_getD, List.getElem?_eq_getElem hi] using this
+    simp only [hall, Bool.true_and]
+    cases hc : cyclomatic g with
+    | none => simp
+    | some mu =>
+      by_cases hmu : (rings.length : Int) = mu
+      · subst hmu
+        cases hi : indepCheck (rings.map (ringVec (edgeList g))) <;> simp
+      · have : ¬ (mu = (rings.length : Int)) := fun e => hmu e.symm
+        simp [hmu, this]
+
+/-- the reference basis used for the size-multiset clause is always a checked cycle basis of the graph -/
+theorem min_basis_is_cycle_basis (g : Adj) (B : List (List Nat)) (h : minBasis g = some B) :
+    (∀ r ∈ B, IsSimpleCycle g r) ∧ Independent (B.map (ringVec (edgeList g))) ∧
+    cyclomatic g = some (B.length : Int) := by
+  unfold minBasis at h
+  split at h
+  · cases h
+  · next mu hmu =>
+    simp only at h
+    split at h
+    · next hc => simp only [Option.some.injEq] at h; subst h; exact check_sssr_sound g _ hc
+    · cases h
+
+/-- hypotheses are satisfiable: the two four-rings of bicyclo[2.2.0]hexane are accepted, and a dependent set is not -/
+example :
+    let g : Adj := [(1, [2, 6, 4]), (2, [1, 3]), (3, [2, 4]), (4, [3, 5, 1]), (5, [4, 6]), (6, [5, 1])]
+    checkSssr g [[1, 2, 3, 4], [1, 4, 5, 6]] = true ∧ checkSssr g [[1, 2, 3, 4], [2, 3, 4, 1]] = false ∧
+    checkSssr g [[1, 2, 3, 4]] = false ∧ checkSssr g [[1, 2, 3, 4], [1, 3, 5, 6]] = false := by decide
+
+/-! ## `_connected_components` -/
+
+/-- On a well-formed symmetric adjacency dict the BFS terminates within the model's fuel and returns a partition
+of the atoms into non-empty duplicate-free blocks; two atoms share a block iff they are connected. -/
+theorem components_partition (g : Adj) (hwf : wfAdj g = true) (hsym : symAdj g = true) :
+    ∃ cs, connectedComponents g = some cs ∧
+      (∀ a, a ∈ keys g ↔ ∃ c ∈ cs, a ∈ c) ∧
+      cs.Pairwise (fun c d => ∀ a, a ∈ c → a ∉ d) ∧
+      (∀ c ∈ cs, c ≠ [] ∧ c.Nodup) ∧
+      (∀ c ∈ cs, ∀ a ∈ c, ∀ b, b ∈ c ↔ Reach g a b) :=
+  components_partition_proof g hwf hsym
+
+example : wfAdj [(1, [2, 3]), (2, [1, 3]), (3, [1, 2]), (4, [5]), (5, [4])] = true ∧
+    symAdj [(1, [2, 3]), (2, [1, 3]), (3, [1, 2]), (4, [5]), (5, [4])] = true ∧
+    connectedComponents [(1, [2, 3]), (2, [1, 3]), (3, [1, 2]), (4, [5]), (5, [4])] = some [[1, 2, 3], [4, 5]] := by
+  decide
+
+/-! ## `rings_count` -/
+
+/-- handshake lemma on the model's adjacency: `sum(len(x) for x in bonds.values())` is twice the number of bonds -/
+theorem degree_sum_twice_bonds (g : Adj) (hwf : wfAdj g = true) (hsym : symAdj g = true) :
+    degreeSum g = 2 * (edgeList g).length := degreeSum_eq_two_edges g hwf hsym
+
+/-- removing the coordinate (order 8) bonds of a well-formed molecule leaves a well-formed symmetric adjacency,
+so every theorem with `wfAdj`/`symAdj` hypotheses applies to `not_special_connectivity` -/
+theorem not_special_wellformed (m : ChythonModel.Model.Mol) (h : m.WF = true) :
+    wfAdj (notSpecial m) = true ∧ symAdj (notSpecial m) = true := notSpecial_wf m h
+
+/-- **`rings_count` is the cyclomatic number** `|E| − |V| + c` of the molecule without its coordinate bonds, and it
+is a number (the component search terminates), for every well-formed molecule -/
+theorem rings_count_cyclomatic (m : ChythonModel.Model.Mol) (h : m.WF = true) :
+    ringsCount m = cyclomatic (notSpecial m) ∧ (ringsCount m).isSome = true := by
+  refine ⟨ringsCount_eq_cyclomatic m h, ?_⟩
+  have hw := (notSpecial_wf m h).1
+  have := components_fuel_suffices (notSpecial m) hw
+  simpa [ringsCount, ringsCountAdj] using this
+
+/-- non-vacuous: a three-ring whose atom 1 also carries a coordinate bond to atom 4 that closes a second ring
+through 4–3; the coordinate bond is ignored, one ring is counted -/
+example :
+    let b1 : ChythonModel.Model.Bond := ⟨1, none⟩
+    let b8 : ChythonModel.Model.Bond := ⟨8, none⟩
+    let m : ChythonModel.Model.Mol := ⟨[(1, {z := 6}), (2, {z := 6}), (3, {z := 6}), (4, {z := 26})],
+      [(1, [(2, b1), (3, b1), (4, b8)]), (2, [(1, b1), (3, b1)]), (3, [(2, b1), (1, b1), (4, b1)]), (4, [(1, b8), (3, b1)])]⟩
+    m.WF = true ∧ ringsCount m = some 1 ∧ ringsCountAdj (fullAdj m) = some 2 := by decide
+
+/-! ## `_skin_graph` -/
+
+/-- the `while True:` loop of `_skin_graph` always terminates within the model's fuel (any input) -/
+theorem skin_terminates (g : Adj) : (skinGraph g).isSome = true := skinGraph_isSome g
+
+/-- `_skin_graph` returns the 2-core: a subgraph of the input in which every atom keeps ≥ 2 neighbours, and it is
+the largest such — any atom set `S` whose members all have ≥ 2 neighbours inside `S` (in particular the atoms of
+any cycle) survives with all its internal bonds. -/
+theorem skin_is_two_core (g s : Adj) (hn : (keys g).Nodup) (h : skinGraph g = some s) :
+    (∀ p ∈ s, 2 ≤ p.2.length) ∧
+    (∀ p ∈ s, ∃ q ∈ g, q.1 = p.1 ∧ ∀ k ∈ p.2, k ∈ q.2) ∧
+    (keys s).Nodup ∧
+    (∀ S : List Nat, (∀ a ∈ S, 2 ≤ ((nbrsOf g a).filter (S.contains ·)).length) →
+      ∀ a ∈ S, a ∈ keys s ∧ ∀ b ∈ S, b ∈ nbrsOf g a → b ∈ nbrsOf s a) :=
+  ⟨skin_min_degree h, skin_sub h, skin_keys_nodup hn h, fun S hS => skin_keeps hn h S hS⟩
+
+/-- non-vacuous: cyclobutane with a two-atom tail; the tail is pruned, the ring (S = [1,2,3,4]) survives -/
+example :
+    let g : Adj := [(1, [2, 4, 5]), (2, [1, 3]), (3, [2, 4]), (4, [3, 1]), (5, [1, 6]), (6, [5])]
+    skinGraph g = some [(1, [2, 4]), (2, [1, 3]), (3, [2, 4]), (4, [3, 1])] ∧
+    (∀ a ∈ [1, 2, 3, 4], 2 ≤ ((nbrsOf g a).filter ([1, 2, 3, 4].contains ·)).length) := by decide
+
+/-! ## `_canonic_ring` -/
+
+/-- On a simple ring (≥ 3 distinct atoms) `_canonic_ring` returns the same cyclic sequence read from its minimum in
+the direction whose second atom is the smaller neighbour. -/
+theorem canonic_ring_spec (r : List Nat) (h3 : 3 ≤ r.length) (hnd : r.Nodup) :
+    ∃ c, canonicRing r = some c ∧ IsDihedral r c ∧ c.head? = minOf r ∧ c.getD 1 0 < c.getD (c.length - 1) 0 :=
+  canonic_ring_spec_proof r h3 hnd
+
+/-- The canonical form does not depend on where and in which direction the ring is written: equal rings are
+recognised as equal (`c in seen_rings`, `c == mc` in `_rings_filter`/`_is_condensed_ring`). -/
+theorem canonic_ring_invariant (r r' : List Nat) (h3 : 3 ≤ r.length) (hnd : r.Nodup) (h : IsDihedral r r') :
+    canonicRing r' = canonicRing r :=
+  canonic_ring_invariant_proof r r' h3 hnd h
+
+/-- error branches of the Python (`min(())` → ValueError, `ring[1]` on a 1-tuple → IndexError) are `none` -/
+theorem canonic_ring_error_branches : canonicRing [] = none ∧ ∀ x, canonicRing [x] = none := canonic_ring_raises
+
+example : canonicRing [5, 3, 9, 1, 7] = some [1, 7, 5, 3, 9] ∧ canonicRing [3, 5, 7, 1, 9] = some [1, 7, 5, 3, 9] ∧
+    IsDihedral [5, 3, 9, 1, 7] [3, 5, 7, 1, 9] := by
+  refine ⟨by decide, by decide, 2, by decide, Or.inr (by decide)⟩
+
+/-! ## `atoms_rings`, `atoms_rings_sizes`, ring marks of `calc_labels` -/
+
+/-- `atoms_rings[n]` lists exactly the reported rings through `n`; `n` is a key iff there is one -/
+theorem atoms_rings_spec (sssr : List Ring) (n : Nat) :
+    (∀ r, r ∈ ((atomsRings sssr).lookup n).getD [] ↔ r ∈ sssr ∧ n ∈ r) ∧
+    ((atomsRings sssr).any (·.1 == n) = true ↔ ∃ r ∈ sssr, n ∈ r) :=
+  ⟨atomsRings_mem sssr n, atomsRings_key sssr n⟩
+
+/-- `atoms_rings_sizes[n]` is the duplicate-free set of sizes of the reported rings through `n` -/
+theorem atoms_rings_sizes_spec (sssr : List Ring) (n : Nat) :
+    (∀ s, s ∈ ((atomsRingsSizes sssr).lookup n).getD [] ↔ ∃ r ∈ sssr, n ∈ r ∧ r.length = s) ∧
+    (((atomsRingsSizes sssr).lookup n).getD []).Nodup :=
+  ⟨atomsRingsSizes_mem sssr n, atomsRingsSizes_nodup sssr n⟩
+
+/-- **marks agree**: for every adjacency row `p` of the molecule, `calc_labels` writes `atom.in_ring` iff a reported
+ring passes through the atom, `atom.ring_sizes` = the set of sizes of those rings, and for each neighbour `k`
+`bond.in_ring` iff some reported ring contains both end points. -/
+theorem marks_agree (m : ChythonModel.Model.Mol) (sssr : List Ring) :
+    ringMarks m sssr = m.adj.map (markOf sssr) ∧
+    ∀ p ∈ m.adj,
+      (markOf sssr p).n = p.1 ∧
+      ((markOf sssr p).inRing = true ↔ ∃ r ∈ sssr, p.1 ∈ r) ∧
+      (∀ s, s ∈ (markOf sssr p).ringSizes ↔ ∃ r ∈ sssr, p.1 ∈ r ∧ r.length = s) ∧
+      (markOf sssr p).ringSizes.Nodup ∧
+      (markOf sssr p).bonds.map (·.1) = p.2.map (·.1) ∧
+      (∀ kb ∈ (markOf sssr p).bonds, (kb.2 = true ↔ ∃ r ∈ sssr, p.1 ∈ r ∧ kb.1 ∈ r)) :=
+  ⟨ringMarks_eq m sssr, fun p _ => markOf_spec sssr p⟩
+
+/-- non-vacuous: cyclopropane with a methyl group, reported ring (1,2,3) -/
+example :
+    let m : ChythonModel.Model.Mol := ⟨[(1, {z := 6}), (2, {z := 6}), (3, {z := 6}), (4, {z := 6})],
+      [(1, [(2, ⟨1, none⟩), (3, ⟨1, none⟩), (4, ⟨1, none⟩)]), (2, [(1, ⟨1, none⟩), (3, ⟨1, none⟩)]),
+       (3, [(2, ⟨1, none⟩), (1, ⟨1, none⟩)]), (4, [(1, ⟨1, none⟩)])]⟩
+    ringMarks m [[1, 2, 3]] =
+      [⟨1, true, [3], [(2, true), (3, true), (4, false)]⟩, ⟨2, true, [3], [(1, true), (3, true)]⟩,
+       ⟨3, true, [3], [(2, true), (1, true)]⟩, ⟨4, false, [], [(1, false)]⟩] := by decide
 
 end ChythonModel.Props.C06
